@@ -81,7 +81,8 @@ fn base_plans(tier: Tier) -> Vec<Plan> {
         v.push(plain(Cfg::Mem, Order::Asc, alphabet(u23(), &W1, 1, true)));
         v.push(plain(Cfg::Mem, Order::Asc, alphabet(u32(), &W1, 1, true)));
         v.push(plain(Cfg::Mem, Order::Asc, names_full.clone()));
-        v.push(plain(Cfg::Phys, Order::Asc, alphabet(u22(), &[b"", b"x", b"\xff\x00"], 5, true)));
+        v.push(plain(Cfg::Phys, Order::Asc, alphabet(u22(), &[b"", b"x", b"\xff\x00"], 1, true)));
+        v.push(plain(Cfg::Phys, Order::Desc, alphabet(u4(), &[b"x"], 5, true)));
         v.push(plain(Cfg::alt(Cfg::Phys, "/Z"), Order::Desc, a22.clone()));
         v.push(plain(Cfg::alt(Cfg::alt(Cfg::Mem, "/Z"), "/Y"), Order::Asc, a22.clone()));
         v.push(plain(Cfg::alt(Cfg::Mem, ""), Order::Asc, a22.clone()));
@@ -108,6 +109,18 @@ fn overlay_plans(tier: Tier) -> Vec<Plan> {
     v.push(populated(mem2(), Order::Desc, alphabet(u3(), &W1, 1, true), &u2, true));
     v.push(populated(phys2(), Order::Asc, alphabet(u3(), &W1, 1, true), &u2, false));
     v.push(populated(Cfg::Ov(vec![Cfg::Mem, Cfg::Mem, Cfg::Mem]), Order::Asc, alphabet(u3(), &W1, 1, true), &u2, false));
+    // a path that is a directory in one layer and a file in another (first layer decides the type,
+    // a directory merges the children of all layers in which it is a directory)
+    v.push(Plan {
+        cfg: Cfg::Ov(vec![Cfg::Mem, Cfg::Mem, Cfg::Mem]),
+        order: Order::Asc,
+        alpha: alphabet(u2.clone(), &W1, 1, true),
+        inits: mixed_type_layerings(3, &u2.paths),
+    });
+    // sibling names that are prefixes of each other (the reserved `*_wo` names stay excluded: with
+    // them the marker of `a` collides with the marker directory of `a_wo` by design)
+    let pfx = Universe::new("U_pfx{a,ab,a/a,a/ab}", &["/a", "/ab", "/a/a", "/a/ab"]);
+    v.push(populated(mem2(), Order::Asc, alphabet(pfx.clone(), &W1, 1, false), &pfx, false));
     if tier == Tier::Thorough {
         v.push(populated(mem2(), Order::Asc, a4.clone(), &u3(), true));
         v.push(populated(mem2(), Order::Asc, alphabet(u22(), &W1, 2, true), &u4(), false));
